@@ -249,7 +249,7 @@ def compare(ctx, enums, wit, step):
                 ctx.fail("C18:reverse_lookup_raises", "E[%s] raised %s" % (safe_repr(probe), type(e).__name__), wit, exc=e)
                 continue
             if got != want:
-                ctx.fail("C18:reverse_lookup.%s" % kind_name(probe), "enum %d: E[%s] = %r, model says %r after %s" % (idx, safe_repr(probe), got, want, step), wit)
+                ctx.fail("C18:reverse_lookup.%s" % kind_name(probe), "enum %d: E[%s] = %s, model says %r after %s" % (idx, safe_repr(probe), safe_repr(got), want, step), wit)
             ctx.count("reverse_lookups")
 
 
